@@ -98,6 +98,8 @@ type Encoder struct {
 	usedContracts map[string]bool
 	usedStdlib    map[string]bool
 	monitor    monitorHooks
+	primary    bool
+	dual       bool
 }
 
 type loopInfo struct {
@@ -120,6 +122,9 @@ func (e *Encoder) havoc(what string) {
 func (e *Encoder) oblName(kind string) string {
 	k := e.counts[kind]
 	e.counts[kind]++
+	if e.dual {
+		return fmt.Sprintf("%s[%s]/%s#%d", e.fnName(), e.mode, kind, k)
+	}
 	return fmt.Sprintf("%s/%s#%d", e.fnName(), kind, k)
 }
 
@@ -344,12 +349,15 @@ func (e *Encoder) store(st *State, loc string, t types.Type, v string) {
 		}
 		return
 	case *types.Array:
+		if scalarElem(u.Elem()) {
+			// the whole array value is one cell of the two-level array memory
+			akey, asort := c.arrKey(u.Elem()), c.arrSort(u.Elem())
+			cur := st.get(c, akey, asort)
+			st.mem[akey] = c.define("M_"+akey, asort, fmt.Sprintf("(store %s %s %s)", cur, loc, v))
+			return
+		}
 		if u.Len() > 64 {
-			e.havoc(fmt.Sprintf("store of large array [%d]", u.Len()))
-			key := c.memKey(u.Elem())
-			n := c.fresh("M_" + key)
-			c.declare(n, c.memSort(u.Elem()))
-			st.mem[key] = n
+			e.havocAll(st, fmt.Sprintf("store of large array [%d]", u.Len()))
 			return
 		}
 		for i := int64(0); i < u.Len(); i++ {
@@ -359,8 +367,21 @@ func (e *Encoder) store(st *State, loc string, t types.Type, v string) {
 	}
 	key := c.memKey(t)
 	sort := c.memSort(t)
+	akey, asort := c.arrKey(t), c.arrSort(t)
+	if b, i, ok := splitLelem(loc); ok {
+		cur := st.get(c, akey, asort)
+		st.mem[akey] = c.define("M_"+akey, asort, fmt.Sprintf("(store %s %s (store (select %s %s) %s %s))", cur, b, cur, b, i, v))
+		return
+	}
 	cur := st.get(c, key, sort)
-	st.mem[key] = c.define("M_"+key, sort, fmt.Sprintf("(store %s %s %s)", cur, loc, v))
+	if flatLoc(loc) {
+		st.mem[key] = c.define("M_"+key, sort, fmt.Sprintf("(store %s %s %s)", cur, loc, v))
+		return
+	}
+	acur := st.get(c, akey, asort)
+	isel := fmt.Sprintf("((_ is lelem) %s)", loc)
+	st.mem[key] = c.define("M_"+key, sort, fmt.Sprintf("(ite %s %s (store %s %s %s))", isel, cur, cur, loc, v))
+	st.mem[akey] = c.define("M_"+akey, asort, fmt.Sprintf("(ite %s (store %s (ebase %s) (store (select %s (ebase %s)) (eidx %s) %s)) %s)", isel, acur, loc, acur, loc, loc, v, acur))
 }
 
 func (e *Encoder) havocAll(st *State, why string) {
@@ -481,24 +502,38 @@ func edgeCond(e *Encoder, from, to *ssa.BasicBlock, idx int) string {
 // memKeysWritten conservatively lists the memory keys written in a set of blocks; all=true if unknown.
 func (e *Encoder) memKeysWritten(blocks map[*ssa.BasicBlock]bool) (keys map[string]types.Type, all bool) {
 	keys = map[string]types.Type{}
-	var addType func(t types.Type)
-	addType = func(t types.Type) {
+	// shape: 0 both, 1 flat only, 2 array only
+	var addShaped func(t types.Type, shape int)
+	addShaped = func(t types.Type, shape int) {
 		switch u := t.Underlying().(type) {
 		case *types.Struct:
 			for i := 0; i < u.NumFields(); i++ {
-				addType(u.Field(i).Type())
+				addShaped(u.Field(i).Type(), 1)
 			}
 		case *types.Array:
-			addType(u.Elem())
+			addShaped(u.Elem(), 2)
 		default:
-			keys[e.c.memKey(t)] = t
+			if shape != 2 {
+				keys[e.c.memKey(t)] = t
+			}
+			if shape != 1 {
+				keys[e.c.arrKey(t)] = t
+			}
 		}
 	}
+	addType := func(t types.Type) { addShaped(t, 0) }
 	for b := range blocks {
 		for _, in := range b.Instrs {
 			switch in := in.(type) {
 			case *ssa.Store:
-				addType(in.Val.Type())
+				switch in.Addr.(type) {
+				case *ssa.FieldAddr, *ssa.Alloc, *ssa.Global:
+					addShaped(in.Val.Type(), 1)
+				case *ssa.IndexAddr:
+					addShaped(in.Val.Type(), 2)
+				default:
+					addType(in.Val.Type())
+				}
 			case *ssa.MapUpdate:
 				all = true
 			case *ssa.Call:
